@@ -60,7 +60,7 @@ Check(c) ==
 
 \* a rejection carries the tags of the known-finding classes the case belongs to
 Verdict(c) == LET v == Check(c) IN
-              IF SubSeq(v, 1, 3) = "rej" THEN v \o Tags(Pats[c.p], Lsts[c.l]) ELSE v
+              IF IsPrefixStr("rej", v) THEN v \o Tags(Pats[c.p], Lsts[c.l]) ELSE v
 
 Init == idx \in DOMAIN Cases /\ verdict = "?"
 Next == verdict = "?" /\ verdict' = Verdict(Cases[idx]) /\ UNCHANGED idx
